@@ -1,6 +1,7 @@
 import TsVerif.C02.Props
 import TsVerif.C06.NodePort
 import TsVerif.C06.Cursor
+import TsVerif.C06.Sexp
 /-!
 # C06 — Node and cursor navigation agree with the tree's structure
 
@@ -29,12 +30,14 @@ Clause → theorem
   (`prev_sibling_cursor` clause is false on the unchanged code: `int8_witness`);
   `iterPrev_current_stale_si_witness`: the current iterator leaves a wrong structural index after
   an extra child; `iterPrev_fixed_steps`: the repaired iterator steps at every valid index.
+* S-expression .................. `sexp_spec` (with `write_spec`/`writeKids_spec`): the port of
+  `ts_subtree__write_to_string`/`ts_node_string` prints `render (flatten root)`
 * OPEN (decided on every node of every explored real tree by the judge against `flatten`, and —
   for all cursor functions and `child`/`named_child` — tied to the ports by correspondence):
   named_child_spec, parent_spec, next/prev_sibling_spec, child_by_field_spec, field_name_spec,
   first_child_for_byte_spec, descendant_for_range_spec, child_with_descendant_spec,
   cursor_node_agree (goto_first_child/next_sibling/parent/goto_descendant walk = preorder of
-  `flatten`), descendant_index_spec, sexp_spec.
+  `flatten`), descendant_index_spec.
 -/
 namespace TsVerif.C06
 open TsGen TsVerif TsVerif.C02
@@ -186,6 +189,118 @@ theorem iterPrev_undoes_iterNext (lang : Lang) (it it' : Iter) (e : Entry) (vis 
         omega
       · simp [hx]
         omega
+
+theorem renderList_append (lang : Lang) : ∀ (a b : List VTree), renderList lang (a ++ b) = renderList lang a ++ renderList lang b
+  | [], b => by simp [renderList]
+  | x :: a, b => by
+    simp only [List.cons_append, renderList]
+    rw [renderList_append lang a b, String.append_assoc]
+
+theorem chainField_cons (l : List Nat) (outer : List (List Nat)) :
+    chainField (l :: outer) = firstSome l.head? (chainField outer) := by
+  cases l with
+  | nil => simp [chainField, List.find?, firstSome]
+  | cons x xs => simp [chainField, List.find?, firstSome]
+
+mutual
+  /-- `write_spec` / `writeKids_spec`: for every subtree in every context (alias, field chain,
+  position), the port of the S-expression writer prints exactly the rendering of the visible
+  nodes `flatten` finds in that subtree. -/
+  theorem write_spec (lang : Lang) : ∀ (t : Tree) (pos : Length) (al id : Nat) (chain : List (List Nat)),
+      sexpOK lang t al = true →
+      writeNode lang t al (al != 0 && (lang.symMeta al).named) (chainField chain) false =
+        renderList lang (flattenAt lang t pos al id chain)
+    | .mk d kids, pos, al, id, chain, hok => by
+      unfold sexpOK at hok
+      simp only [Bool.and_eq_true] at hok
+      unfold writeNode flattenAt
+      by_cases hv : (d.visible || al != 0) = true
+      · simp only [hv, if_true] at hok ⊢
+        have hk := writeKids_spec lang kids pos d.productionId 0 0 d.addr kids.length [] hok.2
+        simp only [renderList, renderInner, String.append_empty]
+        have hnone : chainField ([] : List (List Nat)) = none := by simp [chainField]
+        rw [hnone] at hk
+        have hvis : (d.isMissing || if (al != 0) = true then al != 0 && (lang.symMeta al).named else d.visible && d.named)
+            = (d.isMissing || if (al != 0) = true then (lang.symMeta al).named else d.named) := by
+          by_cases ha : (al != 0) = true
+          · simp [ha]
+          · have hdv : d.visible = true := by
+              simp only [Bool.or_eq_true] at hv
+              rcases hv with h | h
+              · exact h
+              · exact absurd h ha
+            simp [ha, hdv]
+        rw [hvis]
+        by_cases hp : (d.isMissing || if (al != 0) = true then (lang.symMeta al).named else d.named) = true
+        · simp only [hp, if_true, Bool.not_false]
+          rw [hk]
+          simp only [renderOpen, Tree.data, Tree.kids]
+          by_cases ha : (al != 0) = true <;> simp [ha, String.append_assoc]
+        · simp only [hp, if_false, Bool.false_eq_true]
+          have hke : kids = [] := by
+            have := hok.1
+            simp only [Bool.or_eq_true, hp, false_or] at this
+            simpa using this
+          subst hke
+          simp [writeKids, flattenKids, renderList]
+      · simp only [hv, if_false, Bool.false_eq_true] at hok ⊢
+        have hk := writeKids_spec lang kids pos d.productionId 0 0 d.addr kids.length chain hok.2
+        simp only [Bool.or_eq_true, not_or, Bool.not_eq_true] at hv
+        have hm : d.isMissing = false := by simpa using hok.1
+        have ha : (al != 0) = false := hv.2
+        simp only [hm, ha, hv.1, Bool.false_or, Bool.false_and, if_false, Bool.false_eq_true, String.append_empty]
+        simpa using hk
+  theorem writeKids_spec (lang : Lang) : ∀ (kids : List Tree) (cur : Length) (pid si i addr n : Nat)
+      (outer : List (List Nat)), sexpOKKids lang kids pid si = true →
+      writeKids lang kids pid si (chainField outer) = renderList lang (flattenKids lang kids cur pid si i addr n outer)
+    | [], _, _, _, _, _, _, _, _ => by simp [writeKids, flattenKids, renderList]
+    | c :: rest, cur, pid, si, i, addr, n, outer, hok => by
+      unfold sexpOKKids at hok
+      simp only [Bool.and_eq_true] at hok
+      unfold writeKids flattenKids
+      rw [renderList_append]
+      by_cases hx : c.data.extra = true
+      · simp only [hx, if_true] at hok ⊢
+        have h1 := write_spec lang c cur 0 (slotId addr n i) [] hok.1
+        have h2 := writeKids_spec lang rest (length_add cur c.totalSize) pid si (i + 1) addr n outer hok.2
+        simp only [chainField, List.find?, Option.bind] at h1
+        rw [← h1, ← h2]; rfl
+      · simp only [hx, if_false, Bool.false_eq_true] at hok ⊢
+        have h1 := write_spec lang c cur (lang.aliasAt pid si) (slotId addr n i) (directFields lang pid si :: outer) hok.1
+        have h2 := writeKids_spec lang rest (length_add cur c.totalSize) pid (si + 1) (i + 1) addr n outer hok.2
+        rw [chainField_cons] at h1
+        simp only [directField]
+        rw [h1, h2]
+end
+
+/-- `sexp_spec`: "the node's S-expression is the rendering of that same tree" — for every
+language whose symbol 0 (`end`) is hidden, and every tree in which hidden nodes are not MISSING and
+unprinted visible nodes are leaves (`sexpOKKids`, evaluated on every explored real tree), the port
+of `ts_node_string(root)` equals `render (flatten root)`. -/
+theorem sexp_spec (lang : Lang) (root : Tree) (rootId : Nat) (hend : (lang.symMeta 0).visible = false)
+    (hok : sexpOKKids lang root.kids root.data.productionId 0 = true) :
+    nodeString lang root 0 =
+      render lang (flatten lang root rootId) (root.data.isMissing || (root.data.visible && root.data.named)) := by
+  obtain ⟨d, kids⟩ := root
+  simp only [Tree.kids, Tree.data] at hok
+  have hk := writeKids_spec lang kids length_zero d.productionId 0 0 d.addr kids.length [] hok
+  have hnone : chainField ([] : List (List Nat)) = none := by simp [chainField]
+  rw [hnone] at hk
+  unfold nodeString writeNode flatten render
+  simp only [hend, Tree.data, bne_self_eq_false, Bool.false_eq_true, if_false, ite_self, Bool.not_true]
+  rw [hk]
+  by_cases hp : (d.isMissing || (d.visible && d.named)) = true
+  · simp only [hp, if_true]
+    simp [renderOpen, Tree.data, Tree.kids, String.append_assoc]
+  · simp only [hp, if_false, Bool.false_eq_true, String.append_empty]
+    by_cases hkk : kids.length > 0
+    · simp [hkk]
+    · have : kids = [] := by
+        cases kids with
+        | nil => rfl
+        | cons a b => simp at hkk
+      subst this
+      simp [flattenKids, renderList]
 
 /-! ## Witnesses (tests on literals): the current code departs from the reverse of `next` -/
 
